@@ -371,16 +371,13 @@ def terminal_density(ctx):
     # terminal length and boundary edge set agree (Device.terminal_info)
     ft = repo.func(DEVICE, "Device.terminal_info")
     fn = ft.node
-    tcalls = [n for n in own_nodes(fn) if isinstance(n, ast.Call) and isinstance(n.func, ast.Name) and n.func.id == "TerminalInfo"]
-    if len(tcalls) != 1:
-        raise AnalysisError("Device.terminal_info no longer builds one TerminalInfo per terminal")
-    a = tcalls[0].args
-    kw = {k.arg: k.value for k in tcalls[0].keywords}
-    bidx = a[3] if len(a) > 3 else kw.get("boundary_edge_indices")
-    ln = a[4] if len(a) > 4 else kw.get("length")
-    tv = _loop_var_over(fn, "self.terminals")
-    bt = rename_id(expanded_text(fn, bidx, stop=(tv,)), tv, "T").replace(" ", "")
-    lt = rename_id(expanded_text(fn, ln, stop=(tv,)), tv, "T").replace(" ", "")
+    # Device.terminal_info followed for one terminal T (pvs/tables.py): the fields of the TerminalInfo it builds, however it is arranged
+    from ..tables import terminal_info_fields, symbolic_text
+    fields = terminal_info_fields(repo)
+    if "boundary_edge_indices" not in fields or "length" not in fields:
+        raise AnalysisError(f"TerminalInfo no longer has boundary_edge_indices / length ({sorted(fields)})")
+    bt, lt = symbolic_text(fields["boundary_edge_indices"]), symbolic_text(fields["length"])
+    tcalls = [fn]
     be = "self.mesh.edge_mesh.boundary_edge_indices"
     want_b = {f"T.contains_points((self.layer.coherence_length*self.mesh.edge_mesh.centers)[{be}],index=True)",
               f"T.contains_points(self.layer.coherence_length*self.mesh.edge_mesh.centers[{be}],index=True)"}
